@@ -163,7 +163,6 @@ def _stv_binding(prog, call):
     return {k: astx.u(v) for k, v in astx.bind_args(call, stv_init.params, skip_self=True).items()}
 
 
-@shape_rule
 def r3_alaska(ctx):
     prog = ctx.prog
     f = prog.find_func("Alaska._run_step")
@@ -211,7 +210,12 @@ def r3_alaska(ctx):
         ctx.violated(g, g.node, "Alaska.get_profile rebuilds the STV stage", f"{len(calls)} STV(...) calls")
         return
     gb = _stv_binding(prog, calls[0])
-    ctx.check({k: v for k, v in gb.items() if k != "profile"} == {k: v for k, v in b.items() if k != "profile"} and gb.get("profile") == "self.get_profile(1)",
+    # the profile argument may be held in a single-assignment temporary
+    gprof = gb.get("profile")
+    if gprof is not None and gprof.isidentifier():
+        dvp = astx.unique_def(g.node, gprof)
+        gprof = astx.u(dvp) if dvp is not None else gprof
+    ctx.check({k: v for k, v in gb.items() if k != "profile"} == {k: v for k, v in b.items() if k != "profile"} and gprof == "self.get_profile(1)",
               g, calls[0], "Alaska.get_profile builds the same STV from get_profile(1) (sibling agreement)", str(gb),
               f"get_profile binds {gb}; the run binds {b}; the profile must be self.get_profile(1)")
     gst = astx.stmt_of(calls[0], gpm)
